@@ -272,9 +272,11 @@ def check_expiry(s, t0, dur, direction, kind):
                       for m in [re.match(rf"t=(\d+) {ag} selected ", e)] if m and int(m.group(1)) <= tfail]
             stamps = stamps + [int(m.group(1)) for e in s.events() for m in [EV_RX.match(e)]
                                if m and m.group(2) == ag and m.group(5) == "2" and int(m.group(1)) <= tfail]
-            if last is not None and (tfail > last + T + 1 + DELTA_MS or
+            # (a pair selected AFTER the last answer — blackout starting at READY — starts its own 30 s from the selection)
+            newest = max(stamps + [last]) if last is not None else None
+            if last is not None and (tfail > newest + T + 1 + DELTA_MS or
                                      not any(0 <= tfail - (x + T) <= 1 + DELTA_MS for x in stamps)):
-                bad.append(("expiry-window", f"agent {ag}: last answer at {last}, FAILED at {tfail}: later than {last + T + DELTA_MS} or not "
+                bad.append(("expiry-window", f"agent {ag}: last answer at {last}, FAILED at {tfail}: later than {newest + T + DELTA_MS} or not "
                                              f"30 s after the pair's selection or any authenticated answer ({sorted(set(stamps))[-4:]})"))
             if tfail > t0 + T + 6000 + sc.TA + DELTA_MS:
                 bad.append(("expiry-bound", f"agent {ag} FAILED {tfail - t0} ms after the answers stopped (> 30 s + one check interval)"))
